@@ -538,10 +538,19 @@ func runReuse1(ins, ins2 []inEl, outs, outs2 []outEl, replay map[string]interfac
 	}
 	rep.Count("reuse", snapshot(tx)+"<-"+fmt.Sprint(len(ins)), len(ins)+len(outs) >= 2)
 	rep.Histogram["tx_on_reused_objects"]++
+	with := func(k string, v interface{}, k2 string, v2 interface{}) map[string]interface{} {
+		m := map[string]interface{}{k: v}
+		if k2 != "" {
+			m[k2] = v2
+		}
+		for kk, vv := range replay {
+			m[kk] = vv
+		}
+		return m
+	}
 	want := refOrderedIn(ins2) && refOrderedOut(outs2)
 	if got := txsort.IsSorted(tx); got != want {
-		replay["IsSorted"], replay["in_order"] = got, want
-		rep.Violate("C18:reuse:issorted", "IsSorted answers for contents the objects held during an earlier call", replay)
+		rep.Violate("C18:reuse:issorted", "IsSorted answers for contents the objects held during an earlier call", with("IsSorted", got, "in_order", want))
 	}
 	strs := func(a []inEl, b []outEl) (x, y []string) {
 		for _, e := range a {
@@ -557,15 +566,13 @@ func runReuse1(ins, ins2 []inEl, outs, outs2 []outEl, replay map[string]interfac
 	sIn, sOut := elemsOf(s)
 	gi, go2 := strs(sIn, sOut)
 	if !multisetEq(gi, wi) || !multisetEq(go2, wo) || !refOrderedIn(sIn) || !refOrderedOut(sOut) {
-		replay["sorted"] = txJSON(sIn, sOut)
-		rep.Violate("C18:reuse:sort", "Sort of objects seen before is not the BIP69-ordered permutation of their present contents", replay)
+		rep.Violate("C18:reuse:sort", "Sort of objects seen before is not the BIP69-ordered permutation of their present contents", with("sorted", txJSON(sIn, sOut), "", nil))
 	}
 	txsort.InPlaceSort(tx)
 	cIn, cOut := elemsOf(tx)
 	gi, go2 = strs(cIn, cOut)
 	if !multisetEq(gi, wi) || !multisetEq(go2, wo) || !refOrderedIn(cIn) || !refOrderedOut(cOut) {
-		replay["in_place"] = txJSON(cIn, cOut)
-		rep.Violate("C18:reuse:inplace", "InPlaceSort of objects seen before is not the BIP69-ordered permutation of their present contents", replay)
+		rep.Violate("C18:reuse:inplace", "InPlaceSort of objects seen before is not the BIP69-ordered permutation of their present contents", with("in_place", txJSON(cIn, cOut), "", nil))
 	}
 }
 
